@@ -325,6 +325,9 @@ class FakeStream(object):
         self.kw = kw
         self.state = "open"
         self.chunks = []           # (bytes, frames)
+        self.nread = 0             # samples handed out by read()
+        self.reads = 0             # read() calls
+        self.nclose = 0
         self._stream = self        # handle passed to _portaudio.write_stream
         self.label = "stream%d" % (len(backend.streams) + 1)
 
@@ -338,8 +341,20 @@ class FakeStream(object):
 
     def close(self):
         self.backend.announce("close", self)
+        self.nclose += 1
         self.state = "closed"
         self.pa._streams.discard(self)
+
+    def read(self, frames):
+        """Input side: the device hands out consecutive samples 1.0, 2.0, ... as packed floats."""
+        import struct
+        self.backend.announce("read", self)
+        if self.state == "closed":
+            self.backend.errors.append("read from a closed stream")
+        first = self.nread
+        self.nread += frames
+        self.reads += 1
+        return struct.pack("%df" % frames, *[float(first + i + 1) for i in range(frames)])
 
     def write(self, data, frames=None):
         self.backend.announce("write", self)
